@@ -84,6 +84,8 @@ type Gen struct {
 	inLoop    int
 	inFn      int
 	inNamedFn int
+	pure      int // > 0: inside a lambda that must not assign outer variables
+	inTry     int
 	loopVar   map[string]bool
 }
 
@@ -320,6 +322,8 @@ func (g *Gen) multi(k Kind, depth int) *Node {
 			if f := g.call(depth - 1); f != nil {
 				return Cap(Stmt(f)) // whatever the function outputs
 			}
+		case g.F.Pipes && g.pure == 0 && g.chance(6):
+			return Cap(g.pipeline(depth - 1))
 		case g.F.XCap && g.chance(6):
 			return XCap(g.Stmt(depth - 1)...)
 		case g.F.Logic && g.chance(5):
@@ -382,7 +386,10 @@ func (g *Gen) elemOf(k Kind, depth int) *Node {
 		hi = vi.n + 1
 	}
 	i := g.R.Intn(hi+1) - 1 // -1 .. hi-1; occasionally out of range
-	if vi.n > 0 && g.chance(90) {
+	if vi.n < 0 {
+		i = g.R.Intn(2) - 1
+	}
+	if vi.n > 0 && g.chance(95) {
 		i = g.R.Intn(vi.n)
 		if g.chance(20) {
 			i = -1 - g.R.Intn(vi.n)
@@ -446,13 +453,7 @@ func (g *Gen) catExpr(depth int) *Node {
 func adjacentOK(prev string, e *Node) bool {
 	switch e.T {
 	case "str":
-		if prev == "str" {
-			return false // two literals would fuse ('a''b' is one string)
-		}
-		if prev == "varx" && bareOK(e.Str) {
-			return false // $x-y is one variable name
-		}
-		return true
+		return true // the renderer alternates the quoting style
 	case "varx", "cap", "xcap", "brace":
 		return true
 	}
@@ -468,6 +469,9 @@ func (g *Gen) freshName() string { return g.pick(varNames) }
 // Stmt yields one statement, as one or (for a loop with its counter) two pipelines.
 func (g *Gen) Stmt(depth int) []*Node {
 	g.spend()
+	if g.pure > 0 {
+		return []*Node{g.putStmt(depth)}
+	}
 	type alt struct {
 		w int
 		f func() []*Node
@@ -502,7 +506,11 @@ func (g *Gen) Stmt(depth int) []*Node {
 		}
 	}
 	if g.F.Exc {
-		alts = append(alts, alt{3, one(func() *Node { return g.failStmt(depth) })})
+		if g.inTry > 0 || g.inFn > 0 {
+			alts = append(alts, alt{3, one(func() *Node { return g.failStmt(depth) })})
+		} else {
+			alts = append(alts, alt{1, one(func() *Node { return g.failStmt(depth) })})
+		}
 		if depth > 0 {
 			alts = append(alts, alt{8, one(func() *Node { return g.tryStmt(depth) })})
 		}
@@ -514,6 +522,9 @@ func (g *Gen) Stmt(depth int) []*Node {
 	}
 	if g.F.Logic {
 		alts = append(alts, alt{5, one(func() *Node { return g.logicStmt(depth) })})
+	}
+	if g.F.Pipes && depth > 0 {
+		alts = append(alts, alt{10, one(func() *Node { return g.pipeStmt(depth) })})
 	}
 	total := 0
 	for _, a := range alts {
